@@ -398,7 +398,7 @@ pub fn c11(g: &mut G) {
         if calls.len() >= 30 {
             let other_wide: Vec<Vec<u8>> = (0..45u8).map(|i| vec![0x41 + i]).collect();
             let other = show_calls(&add_calls(&other_wide));
-            for i in 0..(w + 2).min(if g.thorough { 200 } else { 60 }) {
+            for i in 0..(w + 2).min(if g.thorough { 1000 } else { 400 }) {
                 let mut script: Vec<Resp> = (0..i).map(|_| Resp::Take(1 << 20)).collect();
                 script.push(Resp::Fail((i as u64) % 12));
                 g.emit(format!("sink 0 default {} - _ {}", script_str(&script), ops));
@@ -406,6 +406,13 @@ pub fn c11(g: &mut G) {
                 g.emit("has 40".into());
                 g.emit("has 7e".into());
                 g.emit("has 41".into());
+                // the first bytes of the failed build's keys are absent here
+                for c in calls.iter().step_by(3) {
+                    let k = match c { Call::Ins(k, _) | Call::Add(k) => k };
+                    if !k.is_empty() && !(0x41..0x41 + 45).contains(&k[0]) {
+                        g.emit(format!("has {}", hex(&k[..1])));
+                    }
+                }
                 g.emit("stream always - -".into());
             }
         }
